@@ -30,6 +30,9 @@ def main():
         d = os.path.join(VERIF, "seeded", n)
         meta = json.load(open(os.path.join(d, "meta.json")))
         pid = meta["property"]
+        # the evidence file of the property is rewritten by every run: keep the one of the unchanged tree
+        ev_path = os.path.join(VERIF, "evidence", pid + ".json")
+        ev_keep = open(ev_path).read() if os.path.exists(ev_path) else None
         rc_a, out_a = sh(["git", "-C", "/repo", "apply", os.path.join(d, "patch.diff")])
         try:
             if rc_a != 0:
@@ -44,6 +47,9 @@ def main():
         finally:
             sh(["git", "-C", "/repo", "checkout", "--", "."])
             sh(["git", "-C", "/repo", "clean", "-fdq"])
+            if ev_keep is not None:
+                with open(ev_path, "w") as f:
+                    f.write(ev_keep)
         meta["check_on_repo"] = res
         json.dump(meta, open(os.path.join(d, "meta.json"), "w"), indent=1)
         print(n, json.dumps(res)[:400], flush=True)
